@@ -79,7 +79,6 @@ theorem ptrLookup_some {s : Cur} {id : Addr} {k : Nat} (h : ptrLookup s id = som
     id = .inSec (s.off + k) ∧ k ≤ s.len := by
   unfold ptrLookup at h
   cases id with
-  | dangling => cases h
   | inSec n =>
     simp only at h
     split at h
@@ -89,7 +88,7 @@ theorem ptrLookup_some {s : Cur} {id : Addr} {k : Nat} (h : ptrLookup s id = som
     · cases h
 
 theorem ptrOffsetFrom_within (m : Mode) {s r : Cur} (h1 : s.off ≤ r.off)
-    (h2 : r.off + r.len ≤ s.off + s.len) : ptrOffsetFrom m r s = .ok (some (r.off - s.off)) := by
+    (h2 : r.off + r.len ≤ s.off + s.len) : ptrOffsetFrom m r s = .ok (r.off - s.off) := by
   cases m <;> simp [ptrOffsetFrom, h1, h2]
 
 /-- a decoder of C09 run through `via` on a window inside the section: the reader returns exactly
